@@ -6,10 +6,12 @@ from hypothesis import strategies as st
 
 from .. import kmodel, logs, strategies as S
 from ..core import Violation, guard
+from ..io_util import HOST_ZONES, host_tz
 
 ID = 'C16'
 RULE = ('record: raw log dict = 10 mandatory keys + hypothesis-drawn subset of the 31 optional keys, in-range values, '
-        'string indexes into a generated table (index 0 always in use), decomposed messages of every shape; '
+        'string indexes into a generated table (index 0 always in use), decomposed messages of every shape, decoded on hosts of 7 '
+        'local time zones (TZ + tzset); '
         'subsets: for a full 31-key record, decode the empty set, the full set, all 31 singletons and all 465 pairs '
         'of optional keys; identifier: firehose words packed by an independent encoder (quick: sampled; thorough: '
         'the complete finite product namespace x type x pc_style x 3 booleans x namespace flags, random code). '
@@ -41,7 +43,8 @@ def shape(rec):
 
 def prop_record(ctx, case):
     rec, table = case['rec'], case['table']
-    ev = guard(decode, rec, table)
+    with host_tz(case.get('zone')):
+        ev = guard(decode, rec, table)
     logs.check_decoded(ev, rec, table, Violation)
     nopt = sum(1 for k in rec if k in logs.OPTIONAL)
     has_seg = bool(rec.get('dm', {}).get('seg'))
@@ -52,7 +55,8 @@ def prop_record(ctx, case):
         cls.append('ti:' + logs.NS_NAMES[rec['ti'][0][0]])
     if any(rec.get(k) == 0 for k in ('pip', 'p', 'sip', 'send', 'sub', 'cat', 'f', 'sn')):
         cls.append('string-index-0')
-    ctx.note(shape(rec), nontrivial=nopt >= 3 or has_seg, classes=cls)
+    cls.append('host-zone:' + str(case.get('zone'))[:5])
+    ctx.note(shape(rec) + [case.get('zone')], nontrivial=nopt >= 3 or has_seg, classes=cls)
 
 
 def prop_subsets(ctx, case):
@@ -88,7 +92,7 @@ PROPS = {'record': prop_record, 'subsets': prop_subsets, 'identifier': prop_iden
 
 def record_case(full=False):
     return logs.string_table().flatmap(lambda table: st.fixed_dictionaries({
-        'table': st.just(table),
+        'table': st.just(table), 'zone': st.sampled_from(HOST_ZONES),
         'rec': logs.raw_record(table, keyset=logs.OPT_KEYS if full else None)}))
 
 
